@@ -62,6 +62,73 @@ CLAIMED = {
              "fill_buf, consume, write, flush of std::io are encoded (std's looping default methods are outside).",
         technique="Kani/CBMC symbolic execution of adapters over SymBuf/SymBufMut with symbolic limits (SAT)",
         design="5 C12"),
+    "C01": dict(
+        text="Bounded model checking, inductive form: in-crate single-step Kani harnesses from ARBITRARY states satisfying the representation invariant of each vtable / BytesMut form (symbolic contents, view, and reference count over 1..=usize::MAX/2; request sizes symbolic over all of usize), which by induction over the operation history covers histories of any length inside the size bound (allocation 4 resp. 8 bytes). After the operation every involved handle is compared with the value model "
+             "(length exactly, every byte through a symbolic index) and the bytes of the original allocation outside the target's own region "
+             "are asserted unchanged (what every other live handle reads). Operations: clone, slice, split_off/split_to/split, truncate, clear, "
+             "advance, unsplit, reserve/try_reclaim, resize, extend, set_len, freeze, Bytes<->BytesMut<->Vec conversions, drop, on static, "
+             "owner-backed, promotable even/odd (odd allocator stub), promoted, shared, inline-Vec (any front offset), shared BytesMut and frozen forms.",
+        note=COMMON_NOTE + "Buffers of 4 (Bytes) / 8 (BytesMut) bytes; ghost handles are abstracted to a reference count plus 'bytes outside my "
+             "region unchanged'; constructors are checked to establish the invariants (base cases); the induction step itself is a paper argument.",
+        technique="Kani/CBMC inductive step from symbolic valid states vs. value model (SAT)", design="4.3, 5 C01"),
+    "C02": dict(
+        text="Bounded model checking: every harness of the step, out-of-contract, cursor and putter families runs with CBMC's pointer checks "
+             "(NULL/invalid/deallocated/dead/out-of-bounds dereference, free of a non-base or freed pointer), Kani's dealloc-size check "
+             "(layout-exact free), arithmetic-overflow checks and kani::mem::can_write_unaligned on [ptr, ptr+capacity) of every BytesMut produced; "
+             "Vec-backed states run under the built-in (even) and the odd-address allocator stubs; arguments are symbolic over all of usize "
+             "including the out-of-contract region (those calls must panic at their contract assertion and nowhere else).",
+        note=COMMON_NOTE + "Uninitialised-memory reads and provenance-level UB are outside (Kani -Z uninit-checks ICEs here); "
+             "builds without debug assertions are covered by the C16 reduction (every overflow check and debug_assert is proved, so removing them changes nothing).",
+        technique="CBMC memory-safety checks over symbolic states and arguments (SAT)", design="5 C02"),
+    "C03": dict(
+        text="Bounded model checking, inductive form: from arbitrary shared states with a symbolic reference count every operation changes the "
+             "count by exactly the number of handles created/destroyed, storage is freed iff the count was 1 (CBMC use-after-free/double-free checks "
+             "plus --memory-leak-check after the harness releases the ghost references), in either drop order of the handles the operation produced. "
+             "Owner-backed data: as_ref called exactly once, owner dropped exactly when the last view goes, conversions of a view copy and release.",
+        note=COMMON_NOTE + "Kani models panic as abort, so 'also when as_ref panics' and leaks on unwinding paths are outside; "
+             "the owner is an instrumented [u8;4] struct (one instantiation).",
+        technique="Kani/CBMC inductive step with symbolic reference counts + leak check (SAT)", design="5 C03"),
+    "C04": dict(
+        text="Bounded model checking, inductive form: in-crate single-step Kani harnesses from ARBITRARY states satisfying the representation invariant of each vtable / BytesMut form (symbolic contents, view, and reference count over 1..=usize::MAX/2; request sizes symbolic over all of usize), which by induction over the operation history covers histories of any length inside the size bound (allocation 4 resp. 8 bytes). reserve/try_reclaim: `additional` symbolic over ALL of usize on both BytesMut forms and any "
+             "reference count: try_reclaim never performs an allocator event (counting allocator stubs), true => capacity-len >= additional with "
+             "contents/length unchanged and the region inside one live allocation, false => (ptr,len,cap,data) bit-identical; reserve: promise kept "
+             "on the in-place, shift-to-front, grow and move-to-new-buffer paths (growth sizes concrete), unrepresentable totals never return. "
+             "Splits: halves disjoint, in bounds, write probe into one half's spare capacity invisible through the other; unique Bytes->BytesMut "
+             "gets capacity exactly up to the allocation end.",
+        note=COMMON_NOTE + "Allocation of 8 bytes (CBMC does not decide symbolic offsets into objects > 64 bytes); capacity classes >= 1 KiB only "
+             "through a symbolic original_capacity_repr field (over-approximation of reachable states for that one branch).",
+        technique="Kani/CBMC inductive step, request sizes over all usize, allocator-event ledger stubs (SAT)", design="5 C04"),
+    "C07": dict(
+        text="Bounded model checking: in every step harness each produced non-empty handle is asserted to start at the source pointer plus its "
+             "logical offset (pointer equality inside one CBMC object) for clone, slice, split_off, split_to, split, truncate, advance, freeze "
+             "(all forms), unsplit of adjacent halves, unique Bytes->BytesMut on every vtable; conversions that must reuse the allocation assert "
+             "as_ptr == allocation base and capacity == allocation size.",
+        note=COMMON_NOTE + "The address clause for EMPTY split results is outside: the crate builds those pointers with without_provenance(addr) "
+             "and CBMC's object/offset pointer encoding cannot represent an integer address moved onto the null object. 'Never allocates a byte "
+             "buffer' is asserted through the counting allocator stubs only for the reclaim/recycle harnesses.",
+        technique="Kani/CBMC pointer-equality assertions inside step harnesses (SAT)", design="5 C07"),
+    "C08": dict(
+        text="Bounded model checking: is_unique() == (reference count == 1) for a symbolic count on every heap vtable, false for static and "
+             "owner-backed; try_into_mut is Ok exactly then and returns the same address; an empty BytesMut that is the only handle takes back the "
+             "whole allocation: try_reclaim(n) is true for every n <= allocation size and reserve(n) performs no allocator event, on both forms and any offset.",
+        note=COMMON_NOTE + "Allocation sizes 4/8 bytes.",
+        technique="Kani/CBMC step harnesses with symbolic reference counts and allocator-event ledger (SAT)", design="5 C08"),
+    "C13": dict(
+        text="Bounded model checking of clause (i): for every safe method with a contract (slice, slice_ref, split_off, split_to, advance, advance_mut, "
+             "resize/reserve with unrepresentable sizes, typed get/put on short buffers, nbytes > 8) the argument is symbolic over the ENTIRE "
+             "out-of-contract region; the only check allowed to fail is the method's contract panic, the call must not return, and all memory-safety "
+             "and overflow checks hold; documented no-ops (truncate beyond len, refused try_reclaim) leave the handle bit-identical; does-not-fit "
+             "writes are observed at the panic site (guards untouched).",
+        note=COMMON_NOTE + "Clause (ii)/(iii) (state after a caught panic, storage released once after unwinding) cannot be executed: Kani models "
+             "panic as abort. What is decided is 'the panic is the first effect' at the cursor panic sites (observer stub) and 'no return'.",
+        technique="Kani/CBMC over the whole out-of-contract argument region with expectation records (SAT)", design="5 C13"),
+    "C18": dict(
+        text="Bounded model checking of the inductive recycling step: from the state class R(C) (one empty BytesMut that is the sole owner of an "
+             "allocation of C bytes, either form, any front offset) a full round reserve(n <= C) / fill / consume by split_to, split+freeze or advance / "
+             "drop of the parts performs no byte-buffer allocation (counting allocator stubs) and ends in R(C) on the same allocation; a fresh buffer "
+             "forced by a shared neighbour is sized by max(needed, original capacity class) for a symbolic class 1..=7.",
+        note=COMMON_NOTE + "C = 8; retention windows > 0 and the literal 10^3..10^6-round histories are replaced by the induction (paper step).",
+        technique="Kani/CBMC inductive round with allocator-event ledger stubs (SAT)", design="5 C18"),
 }
 
 NOT_YET = "check not built yet in this session (work in progress; see DESIGN.md section 5 for the planned solver encoding)"
